@@ -95,8 +95,8 @@ structure Cache where
   ents : List (Key × Val)      -- most recently used first
 deriving DecidableEq, Repr
 
-/-- `_wrapper.Size()`: the value's own `Size()` when it has one, else 1 -/
-def vsize (sized : Bool) (v : Val) : Nat := if sized then v % 3 + 1 else 1
+/-- `_wrapper.Size()`: the value's own `Size()` when it has one (rows of size 0, 1 or 2; the nil row has none), else 1 -/
+def vsize (sized : Bool) (v : Val) : Nat := if sized && v != 0 then v % 3 else 1
 
 /-- `checkCapacity`: entries are dropped from the back while the summed size exceeds the capacity — what stays is the
 longest prefix that fits (possibly nothing, not even the entry just written) -/
